@@ -95,7 +95,8 @@ TSort == /\ l <= Len(Rec) /\ Ev.ev = "sort_new_items"
             ELSE panic' = FALSE /\ Obs(E', lists', Ev)
          /\ l' = l + 1
 
-TSortFull == /\ l <= Len(Rec) /\ Ev.ev = "sort"
+TSortFull == /\ l <= Len(Rec) /\ Ev.ev = "sort" /\ Ev.panic = FALSE
+             /\ "relation_violated" \notin DOMAIN Ev
              /\ SortFull(4 + Ev.nifdata)
              /\ Obs(E', lists', Ev)
              /\ l' = l + 1
